@@ -174,7 +174,9 @@ void yield_hint();
 void obj_born(int64_t id, const void* addr, size_t size);
 void obj_retired(int64_t id, int64_t deleter_id);
 void obj_died(int64_t id, int64_t deleter_id); // deleter_id < 0: plain destructor
-void guard_add(int64_t id, int slot);          // calling thread's guard `slot` now protects id
+// calling thread's guard `slot` now protects id; via: 0 acquired from a concurrent_ptr, 1 copy of another guard,
+// 2 copy of another guard made after the object had already been retired
+void guard_add(int64_t id, int slot, int via = 0);
 void guard_del(int64_t id, int slot);
 bool obj_alive(int64_t id);
 int obj_state(int64_t id); // 0 unknown, 1 born, 2 retired, 3 dead
